@@ -4,6 +4,8 @@ package commonspace
 
 import (
 	"context"
+	"strings"
+	"sync/atomic"
 
 	"github.com/anyproto/any-sync/app"
 	"github.com/anyproto/any-sync/commonspace/spacestate"
@@ -30,10 +32,14 @@ func VerifCreateSpaceStorage(ctx context.Context, provider spacestorage.SpaceSto
 // the container started, Init goes on to look up the space's standard components, which a harness container does not
 // have (MustComponent panics): that panic is what "started" looks like here and is reported as started = true.
 func VerifSpaceInit(ctx context.Context, child *app.App) (err error, started bool) {
-	s := &space{app: child, state: &spacestate.SpaceState{SpaceId: "verif-space"}}
+	s := &space{app: child, state: &spacestate.SpaceState{SpaceId: "verif-space", SpaceIsClosed: &atomic.Bool{}, TreesUsed: &atomic.Int32{}}}
 	defer func() {
 		if r := recover(); r != nil {
-			err, started = nil, true
+			if e, ok := r.(error); ok && strings.Contains(e.Error(), "not registered") {
+				err, started = nil, true
+				return
+			}
+			panic(r)
 		}
 	}()
 	err = s.Init(ctx)
